@@ -608,3 +608,46 @@ def late_binding_closures(ctx, rule="RL"):
                     bad = bad or ("a lambda stored per iteration reads the iteration variable %s when it is called: every stored function uses the value of the last iteration" % sorted(late), lam.lineno)
         ctx.check(rule, qn + "|no-late-binding-closure", False if bad else True, "no function stored per iteration closes over the iteration variable", fn=qn, nontrivial=False,
                   bad=bad[0] if bad else "", line=bad[1] if bad else None)
+
+
+def set_iteration_order(ctx, rule="RS"):
+    """A loop or comprehension that runs over a set (set(...), a set literal / comprehension, a difference or union of sets, or a local name
+    bound to one) and builds an ordered result (appends, yields, fills a list / dict) takes its order from the hash table: for strings that
+    order changes from one interpreter run to the next (hash randomisation), so the same call returns differently ordered output."""
+    import ast
+
+    def is_set_expr(n, local_sets):
+        if isinstance(n, (ast.Set, ast.SetComp)):
+            return True
+        if isinstance(n, ast.Call) and isinstance(n.func, ast.Name) and n.func.id in ("set", "frozenset"):
+            return True
+        if isinstance(n, ast.BinOp) and isinstance(n.op, (ast.Sub, ast.BitOr, ast.BitAnd, ast.BitXor)):
+            return is_set_expr(n.left, local_sets) or is_set_expr(n.right, local_sets)
+        if isinstance(n, ast.Call) and isinstance(n.func, ast.Attribute) and n.func.attr in ("difference", "union", "intersection", "symmetric_difference") and is_set_expr(n.func.value, local_sets):
+            return True
+        if isinstance(n, ast.Name) and n.id in local_sets:
+            return True
+        return False
+
+    for qn in scope(ctx):
+        f = ctx.pkg.functions[qn]
+        local_sets = set()
+        for n in ast.walk(f.node):
+            if isinstance(n, ast.Assign) and len(n.targets) == 1 and isinstance(n.targets[0], ast.Name):
+                if is_set_expr(n.value, local_sets):
+                    local_sets.add(n.targets[0].id)
+                elif n.targets[0].id in local_sets:
+                    local_sets.discard(n.targets[0].id)
+        bad = None
+        for n in ast.walk(f.node):
+            its = []
+            if isinstance(n, ast.For):
+                its = [(n.iter, n)]
+            elif isinstance(n, (ast.ListComp, ast.GeneratorExp, ast.DictComp)):
+                its = [(g.iter, n) for g in n.generators]
+            for it, node in its:
+                if is_set_expr(it, local_sets):
+                    bad = bad or ("the iteration over %s builds an ordered result" % ast.unparse(it)[:50], node.lineno)
+        ctx.check(rule, qn + "|no-order-taken-from-a-set", False if bad else True, "no ordered result is built by iterating over a set", fn=qn, nontrivial=False,
+                  bad=(bad[0] + ": the order of a set of strings depends on the interpreter's hash seed, so repeated runs return differently ordered output (wrap it in sorted(...))") if bad else "",
+                  line=bad[1] if bad else None)
